@@ -20,7 +20,18 @@ CONSTANTS Layout, Depth
 \* them after the model's):  o = additive offset of the observed spectrum (lin, bounds [-4, 4], initially 0),
 \*                           s = multiplicative scale (log mode, exponent bounds [0, 1], initially 1)
 \*   observed spectrum = Data * s + o;  perfect fit at a=2, b=10^1, (c=6,) o=0, s=10^0, i.e. x = <<2, 1, 0, 0>>
+\* Layout "hist": the world "two" (fewer vectors) whose ONE long-lived optimizer is pointed at three observations, one
+\* after the other (set_observed ; compile_params ; compute_fit):
+\*   observation 1: bins {1,2} {3,4}      data 14, 12       sigma 2, 3   (the observation of "two")
+\*   observation 2: bins {1} {2,3,4}      data 18, 11       sigma 1, 2   (same number of bins, other layout)
+\*   observation 3: bins {1} {2,3} {4}    data 18, 8, 18    sigma 2, 1, 3 (another number of bins; perfect fit at a=2, b=10)
 Mixed   == Layout \in {"mixed", "mixedref"}
+\* ("histsim": the same world with three vectors only, for the simulated walks -- they switch observation more often)
+Hist    == Layout \in {"hist", "histsim"}
+MCMoreObs == IF Hist
+             THEN <<[bins |-> <<{1}, {2, 3, 4}>>, data |-> <<18, 11>>, sig |-> <<1, 2>>],
+                    [bins |-> <<{1}, {2, 3}, {4}>>, data |-> <<18, 8, 18>>, sig |-> <<2, 1, 3>>]>>
+             ELSE <<>>
 Obs     == Layout = "obs"
 MCNP    == IF Layout = "three" THEN 4 ELSE IF Obs THEN 5 ELSE 3
 MCFit   == IF Layout = "three" THEN <<TRUE, TRUE, FALSE, TRUE>> ELSE IF Obs THEN <<TRUE, TRUE, FALSE, TRUE, TRUE>>
@@ -34,18 +45,20 @@ MCUser  == IF Mixed THEN <<TRUE, TRUE, FALSE>> ELSE [p \in 1..MCNP |-> FALSE]
 MCUMode == IF Mixed THEN <<"log", "lin", "lin">> ELSE [p \in 1..MCNP |-> "lin"]
 MCULo   == [p \in 1..MCNP |-> 0]
 MCUHi   == IF Mixed THEN <<2, 48, 0>> ELSE [p \in 1..MCNP |-> 0]
-MCVal0  == IF Mixed THEN <<1, 1, 12>> ELSE IF Layout = "two" THEN <<1, 1, 6>> ELSE IF Obs THEN <<1, 1, 6, 0, 1>>
+MCVal0  == IF Mixed THEN <<1, 1, 12>> ELSE IF Layout = "two" \/ Hist THEN <<1, 1, 6>> ELSE IF Obs THEN <<1, 1, 6, 0, 1>>
            ELSE <<1, 1, 6, 3>>
 MCXSet  == IF Layout = "mixed" THEN <<{0, 1, 2}, {0, 2, 10, 45}, {}>>
            ELSE IF Layout = "mixedref" THEN <<{0, 1}, {0, 2, 3}, {}>>
            ELSE IF Layout = "two" THEN <<0..7, 0..2, {}>>
+           ELSE IF Layout = "hist" THEN <<{2, 3, 6}, {1, 2}, {}>>
+           ELSE IF Layout = "histsim" THEN <<{2, 3, 6}, {1}, {}>>
            ELSE IF Obs THEN <<{2, 3, 6}, {0, 1}, {}, {-2, 0}, {0, 1}>>
            ELSE <<{0, 2, 3, 6}, 0..2, {}, {2, 3}>>
 MCCoef  == IF Layout = "three" THEN <<<<1, 2, 3, 4>>, <<1, 0, 0, 1>>, <<1, 1, 0, 0>>, <<0, 1, 2, 0>>>>
            ELSE IF Obs THEN <<<<1, 2, 3, 4>>, <<1, 0, 0, 1>>, <<1, 1, 0, 0>>, <<0, 0, 0, 0>>, <<0, 0, 0, 0>>>>
            ELSE <<<<1, 2, 3, 4>>, <<1, 0, 0, 1>>, <<1, 1, 0, 0>>>>
 MCBins  == <<{1, 2}, {3, 4}>>
-MCData  == IF Mixed THEN <<28, 36>> ELSE IF Layout \in {"two", "obs"} THEN <<14, 12>> ELSE <<15, 14>>
+MCData  == IF Mixed THEN <<28, 36>> ELSE IF Layout \in {"two", "obs"} \/ Hist THEN <<14, 12>> ELSE <<15, 14>>
 MCSig   == <<2, 3>>
 MCChem  == {1, 2}
 MCNaNBins == {1}                 \* "NaNSome": the native points of bin 1 are NaN, bin 2 is comparable
@@ -53,5 +66,7 @@ MCNaNBins == {1}                 \* "NaNSome": the native points of bin 1 are Na
 \* binding C: print every simulated behaviour of length Depth (history of calls with the
 \* specification's expected written values and expected result)
 EmitHist == (TLCGet("level") = Depth) =>
-              PrintT(<<"BEH", ToJson([layout |-> Layout, hist |-> hist])>>)
+              PrintT(<<"BEH", ToJson([layout |-> Layout, hist |-> hist,
+                                      \* the observations the optimizer is pointed at (bins = sets of native indices)
+                                      obs |-> [o \in 1..NObs |-> ObsRec(o)]])>>)
 =============================================================================
